@@ -5,13 +5,13 @@ CONSTANTS
   DynLo = 5
   WksAddr = 2
   Names = {"wk", "n1", "n2", "n3"}
-  MaxSock <- Max32
+  MaxSock <- Max31
   KindSeq <- SeqDgram
   Roles <- DgramOps
   Msgs = {1}
   BindAddrs <- BA
-  Dsts = {2, 3, 5, 6}
-  RecvBuf = 2
+  Dsts = {2, 5, 6}
+  RecvBuf = 1
   Backlog = 1
   WksCheck = TRUE
   SnlClean = TRUE
